@@ -254,6 +254,12 @@ def binary_corpus(which):
         c = copy.deepcopy(c)
         c["lists"] = [[], [1]]
         yield c
+        # the dict next to an Event: sorted() without a key compares them (TypeError from Event.__lt__ / dict <)
+        # where union_no_overlap reads .timestamp (AttributeError)
+        for ls in ([[0, 1], []], [[], [1, 0]], [[1, 0], [0]]):
+            c = copy.deepcopy(c)
+            c["lists"] = ls
+            yield c
 
 
 def rand_list(rng, style, n, unit, classes):
@@ -936,6 +942,9 @@ def replay(case, use_driver=True):
 
 def prepare(ck):
     """build build/THEAP/driver from coq/Extract/ExTHeap.v (the model's .vo first when it is stale)"""
+    global DRIVER
+    # one driver directory per calling property: C10, C15 and C09 may run at the same time
+    DRIVER = "THEAP" if ck.prop == "THEAP" else "THEAP_" + ck.prop
     v = os.path.join(common.COQ, "Model", "TransformHeap.v")
     vo = v + "o"
     try:
